@@ -4,42 +4,9 @@
 (* TLC enumerates, per composition, the abstract input classes, checks the region algebra (the format as        *)
 (* designed is self-consistent: header describes the regions, the reader's cuts recover the payload, building   *)
 (* again from what was read gives the same regions) and prints every case for replay on the real builder.       *)
-EXTENDS Mbi, Json, IOUtils
-Classes == ndJsonDeserialize(IOEnv.CLASS_FILE)        \* <<[id, type, mixins], ...>>
-Kinds   == ndJsonDeserialize(IOEnv.KINDS_FILE)        \* <<[name, ver, certLen, sigLen, iskLen], ...>>
-Full    == IOEnv.GEN_FULL = "1"
+EXTENDS MbiInputs
 VARIABLES stage, img, ivt, back, again
 vars == <<cls, x, stage, img, ivt, back, again>>
-
-KindsOf(ver) == SelectSeq(Kinds, LAMBDA k : k.ver = ver)
-NoKind == [name |-> "none", ver |-> "none", certLen |-> 0, sigLen |-> 0, iskLen |-> 0]
-AppLens == LET all == IF Full THEN {56, 57, 58, 59, 60, 63, 64, 65, 68, 72, 76, 80, 100, 511, 512, 513, 1000, 1024, 1536, 4099}
-                      ELSE {56, 57, 60, 64, 68, 100, 512, 1022, 1536}
-           IN IF HmacF THEN {n \in all : n >= 64} ELSE all
-TzKinds == CASE TzMode = "none" -> {"none"} [] TzMode = "mand" -> {"enabled", "custom"} [] OTHER -> {"disabled", "enabled", "custom"}
-Tails   == IF Has("RelocTable") \/ Full THEN {"plain", "marker"} ELSE {"plain"}
-KsSet   == IF Has("KeyStore") THEN BOOLEAN ELSE {FALSE}
-Relocs  == IF Has("RelocTable") THEN {<<>>, <<32>>, <<30, 37>>} ELSE {<<>>}
-NVar    == IF Full THEN 8 ELSE 4
-\* the independent word-level settings travel together on one variant index (each value of each setting occurs)
-VerMenu  == <<0, 1, 32769, 65535, 7, 0, 256, 4660>>
-FwMenu   == <<0, 1, 2147483647, 3, 65536, 0, 7, 255>>
-LoadMenu == << <<0, 0>>, <<8192, 4096>>, <<32768, 0>>, <<65535, 65532>>, <<4096, 0>>, <<0, 1024>>, <<12288, 256>>, <<1, 0>> >>
-DigMenu  == <<"none", "sha256", "add", "sha384", "sha512", "none", "add", "sha256">>
-DigestBytes(opt, k) == CASE opt = "sha256" -> 32 [] opt = "sha384" -> 48 [] opt = "sha512" -> 64 [] opt = "add" -> k.sigLen \div 2 [] OTHER -> 0
-Mk(a, t, z, ks, r, i) ==
-  LET ks_ == KindsOf(Cert)
-      k == IF Cert = "none" THEN NoKind ELSE ks_[(i % Len(ks_)) + 1]
-      dopt == IF Manifest = "digest" THEN DigMenu[i + 1] ELSE "none"
-  IN [appLen |-> a, tail |-> t, tz |-> z, tzLen |-> IF z = "custom" THEN 464 ELSE 0,
-      hwKey |-> Has("HwKey") /\ i % 2 = 1, ks |-> ks, relocs |-> r,
-      kind |-> k.name, certLen |-> k.certLen, sigLen |-> k.sigLen, iskLen |-> k.iskLen,
-      imgVer |-> IF Has("ImageVersion") THEN VerMenu[i + 1] ELSE 0,
-      sub |-> IF Has("ImageSubType") THEN (i \div 2) % 2 ELSE 0,
-      fwVer |-> IF Manifest # "none" THEN FwMenu[i + 1] ELSE 0,
-      digestOpt |-> dopt, digest |-> DigestBytes(dopt, k),
-      load |-> IF HasLoad THEN LoadMenu[i + 1] ELSE <<0, 0>>]
-Inputs == {Mk(a, t, z, ks, r, i) : a \in AppLens, t \in Tails, z \in TzKinds, ks \in KsSet, r \in Relocs, i \in 0..(NVar - 1)}
 
 None == [k |-> "none"]
 Init == /\ cls \in {Classes[c] : c \in 1..Len(Classes)}
